@@ -38,7 +38,7 @@ def gather(tier, run):
     # hand-built families whose meaning depends on cross-namespace resolution (both import directions are in the families;
     # the file permutations of this check put importer and imported in either order)
     extra = 0
-    for fam in (profiles.cross_namespace_inheritance_models, profiles.three_namespace_chain_models, profiles.annotation_models):
+    for fam in (profiles.cross_namespace_inheritance_models, profiles.three_namespace_chain_models, profiles.annotation_models, profiles.import_reason_models):
         for m, tr in fam():
             if m not in seen:
                 seen.add(m)
